@@ -51,13 +51,21 @@ NEIGHBOURS = ("d-bs", "d-be", "d-vs", "d-ve", "d-cs", "d-ce")
 NL = {"n": "\n", "r": "\r", "rn": "\r\n"}
 
 
-def make_cfg(family="default", trim=False, lstrip=False, keep=False, nl="n", lsp="", lcp=""):
+FINALIZE_KINDS = ("plain", "env", "ctx", "evalctx")
+
+
+def make_cfg(family="default", trim=False, lstrip=False, keep=False, nl="n", lsp="", lcp="", fin="", ae=False):
+    """fin: the environment's finalize hook ("" = none, else how it is called, see finalize_hooks),
+    ae: autoescape.  Both are rendering hooks for variable expressions (LexerRules!Printed)."""
     f = FAMILIES[family]
     name = f"{family}/t{int(trim)}l{int(lstrip)}k{int(keep)}/{nl}/{lsp}/{lcp}"
+    if fin or ae:
+        name += f"/f:{fin}/a{int(ae)}"
     c = {"name": name}
     for k, v in f.items():
         c[k] = list(v)
-    c.update(lsp=list(lsp), lcp=list(lcp), trim=bool(trim), lstrip=bool(lstrip), keep=bool(keep), nl=list(nl))
+    c.update(lsp=list(lsp), lcp=list(lcp), trim=bool(trim), lstrip=bool(lstrip), keep=bool(keep), nl=list(nl),
+             fin=fin, ae=bool(ae))
     return c
 
 
@@ -72,6 +80,49 @@ def env_options(cfg):
         line_statement_prefix="".join(cfg["lsp"]) or None,
         line_comment_prefix="".join(cfg["lcp"]) or None,
     )
+    # only when set (other checks pass these options on to Template(...) / overlay(...) as they are);
+    # the finalize hook is named here and made by real_options in the process that uses it
+    if cfg.get("fin"):
+        o["finalize"] = cfg["fin"]
+    if cfg.get("ae"):
+        o["autoescape"] = True
+    return o
+
+
+_HOOKS = {}
+
+
+def finalize_hooks():
+    """The finalize hooks by the way jinja2 calls them.  Each puts the printed value in brackets
+    (LexerRules!Printed), so a hook that is applied to anything but the result of a variable
+    expression shows in the output."""
+    if not _HOOKS:
+        from jinja2 import pass_context, pass_environment, pass_eval_context
+
+        def plain(value):
+            return "[" + str(value) + "]"
+
+        @pass_environment
+        def env(environment, value):
+            return "[" + str(value) + "]"
+
+        @pass_context
+        def ctx(context, value):
+            return "[" + str(value) + "]"
+
+        @pass_eval_context
+        def evalctx(eval_ctx, value):
+            return "[" + str(value) + "]"
+
+        _HOOKS.update(plain=plain, env=env, ctx=ctx, evalctx=evalctx)
+    return _HOOKS
+
+
+def real_options(opts):
+    """env_options(...) -> keyword arguments with the named finalize hook replaced by the callable."""
+    o = dict(opts)
+    if isinstance(o.get("finalize"), str):
+        o["finalize"] = finalize_hooks()[o["finalize"]]
     return o
 
 
@@ -227,7 +278,7 @@ def _get_env(opts_items):
     e = _ENVS.get(opts_items)
     if e is None:
         from jinja2 import Environment
-        e = _ENVS[opts_items] = Environment(**dict(opts_items))
+        e = _ENVS[opts_items] = Environment(**real_options(opts_items))
     return e
 
 
@@ -246,7 +297,8 @@ def _get_overlay(opts_items):
             b.from_string("x\n{% if 1 %}\ny{% endif %}\n").render()
             _BASE.append(b)
         try:
-            o = _BASE[0].overlay(**{"newline_sequence": "\n", "keep_trailing_newline": False, "trim_blocks": False, **dict(opts_items)})
+            o = _BASE[0].overlay(**{"newline_sequence": "\n", "keep_trailing_newline": False, "trim_blocks": False,
+                                    **real_options(opts_items)})
         except TypeError:
             o = False
         _OVERLAYS[opts_items] = o
@@ -537,7 +589,7 @@ def gen_line_structured(rng, cfg, n):
     return ps
 
 
-PLAIN_ALPHABET = ["a", "_", "t", "v", "w", "n", "r", "rn", "{", "%", "#", "}", "-", "+", "<", ">", "[", "]", "!", "="]
+PLAIN_ALPHABET = ["a", "_", "t", "v", "w", "n", "r", "rn", "{", "%", "#", "}", "-", "+", "<", ">", "[", "]", "!", "=", "&"]
 
 
 def gen_plain(rng, cfg, n):
